@@ -21,7 +21,16 @@ fn enc_key(ver: KeyVersion, primary: KeyType, sub: KeyType, seed: u64) -> Signed
     p.build().expect("params").generate(Rng::new(seed)).expect("keygen")
 }
 
-struct PoolKey { name: String, sk: SignedSecretKey, pk: SignedPublicKey, locked_with: Option<String> }
+/// a key with several subkeys: `subs` = (type, signing?) in order
+fn multi_key(ver: KeyVersion, primary: KeyType, subs: Vec<(KeyType, bool)>, seed: u64) -> SignedSecretKey {
+    let subs = subs.into_iter().map(|(kt, sign)| { let mut s = SubkeyParamsBuilder::default(); s.version(ver).key_type(kt); if sign { s.can_sign(true); } else { s.can_encrypt(EncryptionCaps::All); } s.build().expect("sub") }).collect::<Vec<_>>();
+    let mut p = SecretKeyParamsBuilder::default();
+    p.version(ver).key_type(primary).can_certify(true).can_sign(true).primary_user_id(format!("c18-{seed} <c18@example.org>")).subkeys(subs);
+    p.build().expect("params").generate(Rng::new(seed)).expect("keygen")
+}
+
+/// `enc`: index of the subkey the test messages are encrypted to
+struct PoolKey { name: String, sk: SignedSecretKey, pk: SignedPublicKey, locked_with: Option<String>, enc: usize }
 
 /// one session-key packet of a test message
 #[derive(Clone)]
@@ -45,11 +54,18 @@ fn main() {
         let mut k = enc_key(KeyVersion::V4, KeyType::Ed25519Legacy, KeyType::ECDH(ECCCurve::Curve25519Legacy), 191);
         let pkk = SignedPublicKey::from(k.clone());
         for s in k.secret_subkeys.iter_mut() { let _ = s.key.set_password(Rng::new(2), &Password::from("kp1")); }
-        pool.push(PoolKey { name: "v4-primary-clear-subkey-locked".into(), sk: k, pk: pkk, locked_with: Some("kp1".into()) });
+        pool.push(PoolKey { name: "v4-primary-clear-subkey-locked".into(), sk: k, pk: pkk, locked_with: Some("kp1".into()), enc: 0 });
         let mut k = enc_key(KeyVersion::V6, KeyType::Ed25519, KeyType::X25519, 192);
         let pkk = SignedPublicKey::from(k.clone());
         let _ = k.primary_key.set_password(Rng::new(1), &Password::from("kp2"));
-        pool.push(PoolKey { name: "v6-primary-locked-subkey-clear".into(), sk: k, pk: pkk, locked_with: None });
+        pool.push(PoolKey { name: "v6-primary-locked-subkey-clear".into(), sk: k, pk: pkk, locked_with: None, enc: 0 });
+        // several subkeys, the recipient subkey not the first one (signing subkey in front; a second encryption subkey)
+        let k = multi_key(KeyVersion::V4, KeyType::Ed25519Legacy, vec![(KeyType::Ed25519Legacy, true), (KeyType::ECDH(ECCCurve::Curve25519Legacy), false)], 193);
+        pool.push(PoolKey { name: "v4-sign-subkey-then-enc-subkey".into(), pk: SignedPublicKey::from(k.clone()), sk: k, locked_with: None, enc: 1 });
+        let k = multi_key(KeyVersion::V6, KeyType::Ed25519, vec![(KeyType::X25519, false), (KeyType::X25519, false), (KeyType::X448, false)], 194);
+        pool.push(PoolKey { name: "v6-three-enc-subkeys-second".into(), pk: SignedPublicKey::from(k.clone()), sk: k, locked_with: None, enc: 1 });
+        let k = multi_key(KeyVersion::V4, KeyType::Ed25519, vec![(KeyType::X25519, false), (KeyType::X25519, false)], 195);
+        pool.push(PoolKey { name: "v4-two-enc-subkeys-second".into(), pk: SignedPublicKey::from(k.clone()), sk: k, locked_with: None, enc: 1 });
     }
     let mut add = |name: &str, sk: SignedSecretKey, lock: Option<&str>| {
         let pk = SignedPublicKey::from(sk.clone());
@@ -59,7 +75,7 @@ fn main() {
             let _ = sk.primary_key.set_password(Rng::new(1), &pw);
             for s in sk.secret_subkeys.iter_mut() { let _ = s.key.set_password(Rng::new(2), &pw); }
         }
-        pool.push(PoolKey { name: name.into(), sk, pk, locked_with: lock.map(|s| s.to_string()) });
+        pool.push(PoolKey { name: name.into(), sk, pk, locked_with: lock.map(|s| s.to_string()), enc: 0 });
     };
     add("v4-cv25519-a", enc_key(KeyVersion::V4, KeyType::Ed25519Legacy, KeyType::ECDH(ECCCurve::Curve25519Legacy), 181), None);
     add("v4-cv25519-b", enc_key(KeyVersion::V4, KeyType::Ed25519Legacy, KeyType::ECDH(ECCCurve::Curve25519Legacy), 182), Some("kp1"));
@@ -87,24 +103,27 @@ fn main() {
         conts.push(Cont { v2, sym, bytes: ps.last().unwrap().to_bytes().unwrap(), k0: raw });
     }
 
-    let ncases = if thorough { 1500 } else { 260 };
+    let ncases = if thorough { 1500 } else { 320 };
     for case in 0..ncases {
         let c = &conts[case % conts.len()];
         let k1: Vec<u8> = { let mut r = Rng::new(9000 + case as u64); r.bytes(c.k0.len()) };
         let keyof = |k: usize| -> RawSessionKey { if k == 0 { c.k0.clone().into() } else { k1.clone().into() } };
         // recipients compatible with the container: PKESK v3 -> v4 keys; PKESK v6 -> any key
         let elig: Vec<usize> = (0..pool.len()).filter(|&i| c.v2 || pool[i].sk.version() == KeyVersion::V4).collect();
-        let nk = cx.rng.range(if case % 7 == 0 { 0 } else { 1 }, 4) as usize;
-        let np = cx.rng.range(if nk == 0 { 1 } else { 0 }, 3) as usize;
+        // the first cases are systematic: every pool key as the only recipient, named and anonymous, presented alone,
+        // behind and in front of an unrelated key (its recipient subkey need not be its first subkey)
+        let forced: Option<(usize, bool, u8)> = if case < 6 * pool.len() { let to = case / 6; if elig.contains(&to) { Some((to, case % 2 == 0, (case % 6 / 2) as u8)) } else { None } } else { None };
+        let nk = if forced.is_some() { 1 } else { cx.rng.range(if case % 7 == 0 { 0 } else { 1 }, 4) as usize };
+        let np = if forced.is_some() { 0 } else { cx.rng.range(if nk == 0 { 1 } else { 0 }, 3) as usize };
         let mut esks: Vec<E> = Vec::new();
         for _ in 0..nk {
-            let to = *cx.rng.pick(&elig);
-            let named = match cx.rng.below(6) { 0 => None, 1 => Some(*cx.rng.pick(&elig)), _ => Some(to) };
+            let to = match forced { Some((t, _, _)) => t, None => *cx.rng.pick(&elig) };
+            let named = match forced { Some((_, anon, _)) => if anon { None } else { Some(to) }, None => match cx.rng.below(6) { 0 => None, 1 => Some(*cx.rng.pick(&elig)), _ => Some(to) } };
             esks.push(E::Pk { to, named, k: 0 });
         }
         for _ in 0..np { esks.push(E::Sk { pw: cx.rng.below(pws.len() as u64) as usize, k: 0 }); }
         // now and then a packet that opens to a different session key
-        if case % 3 == 0 { if cx.rng.chance(1, 2) { let to = *cx.rng.pick(&elig); esks.push(E::Pk { to, named: Some(to), k: 1 }); } else { esks.push(E::Sk { pw: cx.rng.below(pws.len() as u64) as usize, k: 1 }); } }
+        if case % 3 == 0 && forced.is_none() { if cx.rng.chance(1, 2) { let to = *cx.rng.pick(&elig); esks.push(E::Pk { to, named: Some(to), k: 1 }); } else { esks.push(E::Sk { pw: cx.rng.below(pws.len() as u64) as usize, k: 1 }); } }
         // order
         for i in (1..esks.len()).rev() { let j = cx.rng.below(i as u64 + 1) as usize; esks.swap(i, j); }
         // build the packets
@@ -113,15 +132,15 @@ fn main() {
         for (ei, e) in esks.iter().enumerate() {
             let b: Option<Vec<u8>> = match e {
                 E::Pk { to, named, k } => {
-                    let sub = &pool[*to].pk.public_subkeys[0].key;
+                    let sub = &pool[*to].pk.public_subkeys[pool[*to].enc].key;
                     let p = if c.v2 { Pk::from_session_key_v6(Rng::new(100 + ei as u64 + case as u64), &keyof(*k), sub).ok() } else { Pk::from_session_key_v3(Rng::new(100 + ei as u64 + case as u64), &keyof(*k), c.sym, sub).ok() };
                     p.and_then(|p| {
                         // rewrite the recipient field
                         let p2 = match (p, named) {
-                            (Pk::V3 { packet_header, pk_algo, values, .. }, Some(n)) => Pk::V3 { packet_header, id: pool[*n].pk.public_subkeys[0].key.legacy_key_id(), pk_algo, values },
+                            (Pk::V3 { packet_header, pk_algo, values, .. }, Some(n)) => Pk::V3 { packet_header, id: pool[*n].pk.public_subkeys[pool[*n].enc].key.legacy_key_id(), pk_algo, values },
                             (Pk::V3 { packet_header, pk_algo, values, .. }, None) => Pk::V3 { packet_header, id: KeyId::from([0u8; 8]), pk_algo, values },
                             (Pk::V6 { pk_algo, values, .. }, named) => {
-                                let fp = named.map(|n| pool[n].pk.public_subkeys[0].key.fingerprint());
+                                let fp = named.map(|n| pool[n].pk.public_subkeys[pool[n].enc].key.fingerprint());
                                 let tmp = Pk::V6 { packet_header: pgp::packet::PacketHeader::new_fixed(pgp::types::Tag::PublicKeyEncryptedSessionKey, 0), fingerprint: fp.clone(), pk_algo, values: values.clone() };
                                 let len = tmp.write_len();
                                 Pk::V6 { packet_header: pgp::packet::PacketHeader::new_fixed(pgp::types::Tag::PublicKeyEncryptedSessionKey, len as u32), fingerprint: fp, pk_algo, values }
@@ -141,7 +160,10 @@ fn main() {
         if !ok { continue; }
         msg.extend(&c.bytes);
         // the ring
-        let present_keys: Vec<usize> = (0..pool.len()).filter(|_| cx.rng.chance(2, 5)).collect();
+        let present_keys: Vec<usize> = match forced {
+            Some((to, _, how)) => { let other = (to + 3) % pool.len(); match how { 0 => vec![to], 1 => vec![other, to], _ => vec![to, other] } }
+            None => (0..pool.len()).filter(|_| cx.rng.chance(2, 5)).collect(),
+        };
         let mut present_pws: Vec<usize> = (0..pws.len()).filter(|_| cx.rng.chance(2, 5)).collect();
         // SKESK v4 has no integrity: a password that is not a recipient may produce a plausible-looking key; only the
         // error direction is judged for those (see below)
